@@ -165,3 +165,36 @@ def check_initialisation(ctx, rid, T):
         if name.startswith('KEYWORDS'):
             ctx.ob(rid, f'default_initialization:add:{name}', _loc(d, d.node), f'keywords.{name} is registered by default_initialization()',
                    name in registered, f'{name} ({len(T.all_dicts[name])} words) is never registered: its words lex as Name')
+
+
+def check_whole_text(ctx, rid):
+    """The lexer sees the whole input at once: a stream is read completely with one read() before the
+    scan, get_tokens has a single scan loop over enumerate(text) and never lexes a chunk/line on its own
+    (no recursive get_tokens/tokenize call, no per-line iteration), and FilterStack.run tokenizes its
+    `sql` argument once.  Otherwise a multi-line literal/comment/keyword that straddles a chunk boundary
+    is cut into unrelated tokens."""
+    repo = ctx.repo
+    f = repo.func(LEXER + '.get_tokens')
+    textv = f.params[1]
+    loc = _loc(f, f.node)
+    reads = [n for n in own_nodes(f.node) if isinstance(n, ast.Call) and isinstance(n.func, ast.Attribute)
+             and n.func.attr in ('read', 'readline', 'readlines') and is_name(n.func.value, textv)]
+    ok = len(reads) == 1 and reads[0].func.attr == 'read' and not reads[0].args and not reads[0].keywords
+    ctx.ob(rid, 'get_tokens:read-once', loc, 'a text stream is read completely by a single argument-less read()', ok,
+           f'stream reads: {[src(r) for r in reads]}: the stream is lexed block-wise/line-wise, so a token that spans a block boundary '
+           '(multi-line string, comment, dollar body, ORDER\\nBY) is cut in two')
+    rec = [n for n in own_nodes(f.node) if isinstance(n, ast.Call) and ((isinstance(n.func, ast.Attribute) and n.func.attr in ('get_tokens',))
+                                                                     or is_name(n.func, 'tokenize'))]
+    ctx.ob(rid, 'get_tokens:no-chunked-recursion', loc, 'get_tokens does not lex pieces of the input separately', not rec,
+           f'`{src(rec[0]) if rec else ""}`: part of the input is lexed on its own')
+    loops = [s for s in f.node.body if isinstance(s, ast.For) and any(isinstance(y, (ast.Yield, ast.YieldFrom)) for y in ast.walk(s))]
+    ctx.ob(rid, 'get_tokens:single-scan-loop', loc, 'there is exactly one top-level scanning loop', len(loops) == 1, f'{len(loops)} yielding loops')
+    # FilterStack.run: tokenize(sql, ...) exactly once, not per line
+    from . import rules_stack as RK
+    m = ctx.shared('runmodel', lambda: RK.RunModel(ctx))
+    toks = [n for n in own_nodes(m.f.node) if isinstance(n, ast.Call) and RK.resolves_to(ctx, m.f, n.func, 'sqlparse.lexer.tokenize')]
+    ok = len(toks) == 1 and toks[0].args and is_name(toks[0].args[0], m.sqlp)
+    in_comp = any(isinstance(p_, (ast.GeneratorExp, ast.ListComp, ast.For)) and any(x is toks[0] for x in ast.walk(p_)) and p_ is not m.f.node
+                  for p_ in ast.walk(m.f.node) if isinstance(p_, (ast.GeneratorExp, ast.ListComp))) if toks else False
+    ctx.ob(rid, 'run:tokenize-whole-input', _loc(m.f, m.f.node), 'FilterStack.run tokenizes its whole `sql` argument with one call', ok and not in_comp,
+           f'tokenize calls: {[src(t) for t in toks]}: the input is lexed piecewise')
